@@ -10,7 +10,8 @@ address space, just below 2^64-32 and at the very top of the address space (last
 sharing a 16-byte window (the F28 shape: [0,4) and [8,12)), blocks in adjacent windows, gaps of exactly one
 window, long blocks spanning several windows, overwriting stores.  Sparse memories hold constants only (what
 the emulator stores).  Commands: print heights 5..40 (a few 0..4), cursor moves to both ends and beyond,
-`address` with stored addresses, absent addresses inside a shown window (F81), addresses outside, window
+`address` with stored addresses, absent addresses inside a shown window (must be refused: the command only
+finds stored addresses; observation F81), addresses outside, window
 boundaries, every notation of the address grammar and malformed arguments (F27 shapes).
 The nil memory (F29: `memory <unknown key>`) is a separate small stream."""
 import math
@@ -218,6 +219,6 @@ def g_memview_witness(r):
         "memview nil 2 goto 0 addr 30",
         "memview sparse 1 18446744073709551600 8 c:0102030405060708 2 print 10 addr 307866666666666666666666666666666630",  # F80
         "memview sparse 1 18446744073709551592 16 c:0102030405060708090a0b0c0d0e0f10 3 print 8 down 2 print 8",
-        "memview sparse 1 20 2 c:abcd 3 addr 3136 print 5 addr 3230",                            # F81: 16 is in the window of 20
+        "memview sparse 1 20 2 c:abcd 3 addr 3136 print 5 addr 3230",                            # 16 is in the shown window of 20 but not stored: error (observation F81)
         "memview bytes 2 0 01020304 8 05060708 0 2 print 10 addr 35",
     ])
